@@ -339,7 +339,7 @@ static ModelCase genModel(Rng& r, const MeshCase& mc)
   int ndim  = mc.ndim;
   // ECov::MARKOV recomputes its normalisation by an N^ndim FFT (N=512) at every construction / setMarkovCoeffs
   // (ACovFunc::computeCorrec): 134M points in 3-D -> minutes and GBs; MARKOV is therefore exercised in 1-D / 2-D only
-  m.markov  = ndim <= 2 && r.coin(0.15);
+  m.markov  = ndim <= 2 && r.coin(0.10);
   static const std::vector<double> nuHalf = {0.5, 1.5, 2.5}, nuInt = {1., 2., 3.};
   bool wantInt = r.coin(0.8);
   if (wantInt) m.nu = (ndim == 2) ? r.pick(nuInt) : r.pick(nuHalf);
@@ -618,8 +618,9 @@ static void checkProjection(Rng& r, Ctx& c, const MeshCase& mc, const AMesh* mes
   std::unique_ptr<ProjMatrix> pm(ProjMatrix::create(db.get(), mesh, rankZ, false));
   std::string kb = "C15:ProjMatrix:" + mcls;
   // shape: "a point outside has an empty row" => one row per retained sample, one column per apex
-  bool lastOut = false;
-  for (int i = np - 1; i >= 0; i--) if (rowOf[i] >= 0) { lastOut = pd.pclass[i] == PC_OUT_FAR || pd.pclass[i] == PC_OUT_NEAR; break; }
+  bool lastOut = false; // the last retained sample is one whose row may legitimately be empty (outside, on the hull, or unclassified)
+  for (int i = np - 1; i >= 0; i--)
+    if (rowOf[i] >= 0) { lastOut = pd.pclass[i] == PC_OUT_FAR || pd.pclass[i] == PC_OUT_NEAR || pd.pclass[i] == PC_HULL || pd.pclass[i] == PC_AMBIG; break; }
   bool shapeOk = pm->getPointNumber() == nrows && pm->getApexNumber() == mm.nv;
   {
     std::string ks = kb + ":shape";
@@ -856,7 +857,8 @@ static void checkConditional(Rng& r, Ctx& c, const MeshCase& mc, const std::vect
     }
     else dpts.push_back(insidePoint());
   }
-  if (nOutData > 0) dpts.back() = insidePoint(); // keep the last sample inside (MeshEStandard drops trailing empty rows: see (c))
+  if (nOutData > 0 || getenv("C15_DEBUG_LASTDATA") == nullptr)
+    dpts.back() = insidePoint(); // keep the last sample strictly inside (MeshEStandard drops trailing empty rows: see (c))
   int zclass = r.irange(0, 2); // data magnitude classes: the iterative solver's stopping rule is not scale invariant
   double zscale = std::sqrt(totalSill) * (zclass == 0 ? r.loguni(1e-4, 1e-2) : zclass == 1 ? r.uni(0.5, 2.) : r.loguni(1e2, 1e4));
   std::vector<double> z(nd);
@@ -1260,7 +1262,8 @@ static void checkConditional(Rng& r, Ctx& c, const MeshCase& mc, const std::vect
     // matrix-free mode: the log-determinants are stochastic trace estimates (Hutchinson with nbsimu Gaussian vectors,
     // PrecisionOpMultiConditional::computeLogDetOp / PrecisionOp::getLogDeterminant): agreement is only required within
     // 6 Monte-Carlo standard deviations sqrt(2 ||log M||_F^2 / nbsimu) for M = A and M = P_k(S_k)  [+ the CG bound on the quadratic term]
-    if (N <= 60)
+    // (each call fits two Chebychev series through 2^20-point FFTs: ~ seconds under ASan, hence a third of the eligible cases)
+    if (N <= 60 && r.coin(c.thorough() ? 0.5 : 0.35))
     {
       int nbsimu = 20;
       double ll0 = logLikelihoodSPDE(dbin.get(), model.get(), nullptr, mc.mesh.get(), 0, nbsimu, SPDEParam(), false);
@@ -1408,7 +1411,9 @@ static void run_case(Rng& r, Ctx& c)
       std::vector<LD> zero(n, 0);
       for (int i = 0; i < n; i++) yd[i] = (double)y[i];
       int wr = 0;
-      double q = ratioVec(yd, zero, m, 256. * (nnzS + 2), &wr);
+      // + geometry round-off: apex coordinates carry an absolute error eps*coordMag, i.e. eps*coordMag/h relative to an edge; entries of an
+      //   element matrix that vanish analytically (right angles in the metric) are then of that relative size and may be dropped by the assembly
+      double q = ratioVec(yd, zero, m, 64. * (nnzS + 2) * (1. + mm.coordMag / mm.hmin), &wr);
       if (c.verbose)
       {
         fprintf(stderr, "S-nullspace worst row %d: sum=%.6Lg bound=%.6Lg sdiag=%.6g tc=%.6g\n", wr, y[wr], m[wr], sdiag[wr], tc[wr]);
@@ -1462,6 +1467,8 @@ static void run_case(Rng& r, Ctx& c)
   static const char* VKN[] = {"normal", "unit", "const", "wide", "affine", "unit-end"};
   std::vector<int> vkinds = {0, 1, 2, 3, 4, 5};
   if (c.thorough()) { vkinds.push_back(0); vkinds.push_back(1); vkinds.push_back(3); }
+  static const bool ONLYCOND = getenv("C15_DEBUG_ONLYCOND") != nullptr; // development aid: go straight to the conditional section
+  if (ONLYCOND) vkinds.clear();
   for (int vk : vkinds)
   {
     std::vector<double> x = makeVec(vk);
@@ -1507,8 +1514,9 @@ static void run_case(Rng& r, Ctx& c)
       if (!(q <= 1) && ratioVec(y, yQ, B, CF) <= 1) key = "C15:PrecisionOp::addToDest:destination-overwritten"; // diagnosed: y = Qx, y0 lost
       c.check("matfree-addToDest", key, q <= 1, q, 1, q <= 1 ? "" : fmt("err=%d i=%d y0=%.6g got=%.17g want y0+Qx=%.17g Qx=%.17g", err, w, y0[w], y[w], (double)want[w], (double)yQ[w]));
     }
-    // E4 evalPower(ONE) on the matrix-free operator and on the Cs operator (polynomial path of the same object)
-    for (int which = 0; which < 2; which++)
+    // E4 evalPower(ONE) on the matrix-free operator and on the Cs operator (polynomial path of the same object).
+    //    Two vectors only: PrecisionOp::evalPower repeats the evaluation size() times (see report), n = 600 costs 600 polynomial evaluations
+    for (int which = 0; which < 2 && vk <= 1; which++)
     {
       std::vector<double> y(n, 3.);
       (which == 0 ? (PrecisionOp&)qmf : (PrecisionOp&)qcs).evalPower(constvect(x), vect(y), EPowerPT::ONE);
@@ -1681,7 +1689,7 @@ static void run_case(Rng& r, Ctx& c)
   // ---- 6. oracle (c): projection of points on the mesh --------------------------------------------
   {
     std::string mcls = fmt("%s:ndim=%d", MKN[mc.kind], ndim);
-    checkProjection(r, c, mc, mc.mesh.get(), mm, mcls, mc.turboTwin.get());
+    if (!ONLYCOND) checkProjection(r, c, mc, mc.mesh.get(), mm, mcls, mc.turboTwin.get());
   }
 
   // ---- 7. oracles (d), (e): conditional precision, solves, kriging, likelihood -----------------------
